@@ -536,6 +536,47 @@ def s_class_list_small():
     return dict(lb=[dict(class_path="vf.fixtures.Base", init_args=dict(w=S.int("lb0.w")))])
 
 
+def b_class_kw():
+    from typing import Dict, List
+
+    from .fixtures import Base
+
+    p = _ap()
+    p.add_argument("--one", type=Base, default=None)
+    p.add_argument("--lst", type=List[Base], default=[])
+    p.add_argument("--dct", type=Dict[str, Base], default={})
+    return p
+
+
+def s_class_kw():
+    """A spec of a **kwargs class, with or without a dict_kwargs section, as a plain value and as an element of a list / a dict."""
+    spec = dict(class_path="vf.fixtures.Kw", init_args=dict(w=S.int("w")))
+    if S.flag("dict_kwargs?"):
+        spec["dict_kwargs"] = dict(extra=S.int("extra"))
+    where = S.choice("where", 3)
+    other = dict(class_path="vf.fixtures.Base")
+    if where == 0:
+        return dict(one=spec)
+    if where == 1:
+        return dict(lst=[other, spec])
+    return dict(dct={"k": spec, "j": other})
+
+
+def b_wrong_kind():
+    from typing import List
+
+    p = _ap()
+    p.add_argument("--a", type=int, default=1)
+    p.add_argument("--f", type=float, default=1.0)
+    p.add_argument("--l", type=List[int], default=[1, 0])
+    return p
+
+
+def s_wrong_kind():
+    """Values of the wrong kind that compare equal to the default (True == 1 == 1.0): every channel has to take the same decision."""
+    return dict(a=S.pick("a", [1, True, 1.0, 2, False]), f=S.pick("f", [1.0, True, 1, 2.5]), l=S.pick("l", [[1, 0], [True, False], [1.0, 0], [2]]))
+
+
 def b_class_group():
     from .fixtures import Sub2
 
@@ -578,6 +619,8 @@ SHAPES = [
     Shape("subcommands", b_subcommands, s_subcommands),
     Shape("subclass_default", b_subclass_default, s_subclass_default, tier="quick"),
     Shape("class_group", b_class_group, s_class_group, tier="quick"),
+    Shape("class_kw", b_class_kw, s_class_kw, tier="quick"),
+    Shape("wrong_kind", b_wrong_kind, s_wrong_kind, tier="quick"),
     Shape("class_list_small", b_class_list_small, s_class_list_small, tier="thorough"),
     Shape("holder", b_holder, s_holder, tier="thorough"),
     Shape("class_containers", b_class_containers, s_class_containers, tier="thorough"),
